@@ -250,6 +250,21 @@ func (w *world) events() []kit.Event {
 			}
 		}
 		if m.cur != nil && len(m.cur.txs) > 0 {
+			// a second copy of the answer to this context's previous, answered request turns up
+			// (that request had been transmitted twice): it concerns nobody any more
+			for i := len(m.old) - 1; i >= 0; i-- {
+				o := m.old[i]
+				if o.why == "answered" && len(o.txs) > 0 && w.pipes[m.cur.txs[len(m.cur.txs)-1].pipe].Alive() {
+					pi := m.cur.txs[len(m.cur.txs)-1].pipe
+					evs = append(evs, kit.Event{Name: "late-duplicate-answer:" + m.name, Run: func() {
+						b := make([]byte, 4)
+						binary.BigEndian.PutUint32(b, o.id)
+						w.pipes[pi].Deliver(append(b, "late-duplicate"...))
+						kit.Count("late-duplicate-answer-ignored")
+					}})
+					break
+				}
+			}
 			last := m.cur.txs[len(m.cur.txs)-1]
 			if w.pipes[last.pipe].Alive() {
 				evs = append(evs, kit.Event{Name: "reply:" + m.name, Run: func() { w.doReply(m, last.pipe) }})
@@ -477,7 +492,13 @@ func hist(depth int, R time.Duration) {
 	// With fail-no-peers set nothing changes as long as one peer is left (these histories never
 	// drop the last one: what happens then is C18's business).
 	failNoPeers = R > 0 && kit.ChooseFree(2) == 1
-	w := setup(R, 2)
+	// the history starts with two connected peers, or (in the plain configuration) with one, so
+	// that both contexts' requests travel over the same connection and wait in the same queue
+	np := 2
+	if sendDeadline == 0 && !failNoPeers && kit.ChooseFree(2) == 1 {
+		np = 1
+	}
+	w := setup(R, np)
 	kit.Hist(depth, w.events, w.settle)
 	// run every remaining timer out: nothing that is done may be transmitted again
 	for _, m := range w.ctxs {
@@ -486,9 +507,9 @@ func hist(depth int, R time.Duration) {
 		}
 	}
 	if R > 0 {
-		kit.Sleep(3 * R)
+		kit.Sleep(3*R + time.Millisecond) // (not a multiple of R: a retry timer that is due is not due "just now")
 		kit.Quiesce()
-		w.account()
+		w.settle() // whatever is still unanswered has been re-sent meanwhile, nothing else was
 	}
 	kit.Must("Socket.Close", func() { _ = w.sock.Close() })
 	kit.Quiesce()
